@@ -6,6 +6,7 @@ import SciVerif.Lemmas.C10j
 import SciVerif.Lemmas.C10k
 import SciVerif.Lemmas.C10n
 import SciVerif.Lemmas.C10p
+import SciVerif.Lemmas.C10q
 import SciVerif.Facts.C10Table
 
 /-!
@@ -146,7 +147,7 @@ theorem C10_counts_text_flat_partial (valid : Str → Bool) (f : F) (hf : f.flat
 theorem C10_species_pattern_stops_at_paren (w s : Str) (e : Char) (he : e = '(' ∨ e = ')') :
     matchP (w ++ e :: s) =
       (matchP w).map fun q => (q.1, q.2.1, q.2.2.1, q.2.2.2.1, q.2.2.2.2 ++ e :: s) :=
-  matchP_mark w s e he
+  matchP_mark w s e (Mark.endc he)
 
 /-- … hence one substitution of pass 1 (`re.sub(…, count=1)`) on `w` followed by a parenthesis acts
     inside `w` if it can, and otherwise behind the parenthesis — for ANY text `w`. -/
@@ -187,6 +188,32 @@ theorem C10_counts_text_group_partial (valid : Str → Bool) (f : F) (hwf : f.wf
     | group g => simp [render]
     | _ => exact absurd hf (by simp [F.group1])
   | _ => exact absurd hf (by simp [F.group1])
+
+/-- Further proved fragment of `C10_preprocess_statement`, the usual way groups occur in chemical
+    formulas: a parenthesis-free formula (species, counts, any blanks, merged capital runs,
+    explicit ` + `), then ANY number of blanks (also none), then one parenthesised
+    parenthesis-free group without or with a count — `Ca(OH)2`, `Al2(SO4)3`, `Mg (NO3)2`,
+    `Na{23} Cl (O H)12`.  Pass 1 is followed as a counted sequence of single substitutions: all
+    substitutions left of the `(` happen first, then those inside the group, none across the
+    parentheses; pass 2 rewrites the counts on both sides; pass 3 turns `X(` / `X  (` into
+    `X + (` (its look-behind run starts inside the last species/count); pass 4 turns `)n` into
+    `) * n`.  Still missing: text after a group (`)n X`, `)n (`), several groups, nested groups,
+    an explicit ` + ` directly before `(`, a trailing explicit ` * n`. -/
+theorem C10_preprocess_chain_group_partial (f : F) (hf : f.chainGroup) (hs : f.spAll SpeciesShape) :
+    preprocess (render f) = renderExplicit f :=
+  preprocess_chainGroup f hf hs
+
+/-- TEXT level, unconditional, SHORT notation: formulas of the form chain + group (`Ca(OH)2`,
+    `Al2 (SO4)3`) — `Substance(text)` through the whole modelled pipeline has exactly the
+    expanded counts. -/
+theorem C10_counts_text_chain_group_partial (valid : Str → Bool) (f : F) (hwf : f.wf = true)
+    (hf : f.chainGroup) (hs : f.spAll fun s => SpeciesShape s ∧ valid s = true) :
+    substanceOf valid (render f) = some ((expand f).map fun kn => (kn.1, (kn.2 : Rat))) := by
+  have hsh : f.spAll SpeciesShape := spAll_mono (fun s h => h.1) f hs
+  have hok : f.spAll (SpeciesOK valid) :=
+    spAll_mono (fun s h => speciesOK_of_text valid s (speciesText_of_shape s h.1) h.2) f hs
+  exact C10_counts_text_partial valid f hwf hok (preprocess_chainGroup f hf hsh)
+    (render_chainGroup_ne_nil f hf hsh)
 
 /-- each species is counted exactly as often as it occurs in the expanded formula, and no
     species is listed twice -/
@@ -353,6 +380,19 @@ example : exGroup.spAll (fun s => SpeciesShape s ∧ (fun _ => true) s = true) :
   have one : ∀ u : Char, isUp u = true → SpeciesShape [u] :=
     fun u hu => ⟨[u], [], by simp, Or.inl rfl, Or.inl ⟨u, hu, rfl⟩⟩
   exact ⟨⟨one 'C' (by decide), rfl⟩, ⟨one 'H' (by decide), rfl⟩⟩
+/-- the hypotheses of the chain + group theorems are satisfiable: `Al2 (SO4)3` ↦ Al2 S3 O12 -/
+def exChainGroup : F :=
+  .seq 1 (.count (.sp ['A', 'l']) 2) (.count (.group (.seq 0 (.sp ['S']) (.count (.sp ['O']) 4))) 3)
+example : exChainGroup.wf = true ∧ exChainGroup.chainGroup ∧
+    String.ofList (render exChainGroup) = "Al2 (SO4)3" ∧
+    String.ofList (renderExplicit exChainGroup) = "Al * 2 + (S + O * 4) * 3" ∧
+    expand exChainGroup = [(['A', 'l'], 2), (['S'], 3), (['O'], 12)] :=
+  ⟨by decide, ⟨trivial, trivial, trivial⟩, by decide +kernel, by decide +kernel, by decide +kernel⟩
+example : exChainGroup.spAll (fun s => SpeciesShape s ∧ (fun _ => true) s = true) := by
+  have one : ∀ u : Char, isUp u = true → SpeciesShape [u] :=
+    fun u hu => ⟨[u], [], by simp, Or.inl rfl, Or.inl ⟨u, hu, rfl⟩⟩
+  exact ⟨⟨⟨['A', 'l'], [], by simp, Or.inl rfl, Or.inr (Or.inl ⟨'A', 'l', by decide, by decide, rfl⟩)⟩, rfl⟩,
+    ⟨one 'S' (by decide), rfl⟩, ⟨one 'O' (by decide), rfl⟩⟩
 /-- transparency is not vacuous: the capital run `CH` before `)` is matched as in the closed text -/
 example : matchP "CH)3".toList = some (2, ['C', 'H'], [], [], ")3".toList) := by decide +kernel
 
